@@ -55,3 +55,6 @@ func VerifPickAZ(nodes []NodeInfo, clientAZ string, startIdx int, counter uint32
 
 // VerifFixIPv6HostPort exports fixIPv6HostPort.
 func VerifFixIPv6HostPort(addr string) string { return fixIPv6HostPort(addr) }
+
+// VerifRedisErrorView exposes the type byte and the raw text of a *RedisError.
+func VerifRedisErrorView(e *RedisError) (typ byte, text string) { return e.typ, e.string() }
